@@ -271,8 +271,7 @@ class Gen:
             return "none", None
         if c == 3 and allow_pct and n > 0:
             # percentages on which binary64 and exact arithmetic agree (see DESIGN C04)
-            cands = [p for p in [0, 1, 10, 25, 33, 50, 51, 66, 75, 99, 100, 101, 150, 200]
-                     if __import__("math").ceil(p / 100.0 * n) == -((-p * n) // 100)]
+            cands = [p for p in [0, 1, 10, 25, 33, 50, 51, 66, 75, 99, 100, 101, 150, 200] if pct_exact(p, n)]
             return "pct", ("int", r.choice(cands))
         if c == 4:
             return "expr", self.gint(min(d, 1), in_for, nid)
@@ -372,6 +371,25 @@ def has_big_range(e):
         if isinstance(x, list) and any(has_big_range(y) for y in x if isinstance(y, tuple)):
             return True
     return False
+
+
+def pct_quota_impl(p, n):
+    """The number of elements `p% of` <n elements> asks for, computed as the code does in binary64 (after fix
+    a93a70c: the smallest count passing libyara's test found / n * 100 >= p when 0 <= p <= 100)."""
+    import math
+    v = float(math.ceil(p / 100.0 * n))
+    if n > 0 and 0 <= p <= 100:
+        passes = lambda k: (k / float(n)) * 100.0 >= float(p)
+        while v > 0 and passes(v - 1.0):
+            v -= 1.0
+        while v <= n and not passes(v):
+            v += 1.0
+    return int(v)
+
+
+def pct_exact(p, n):
+    """(p, n) on which the binary64 computation of the code gives the exact ceil(p * n / 100) of the model."""
+    return pct_quota_impl(p, n) == -((-p * n) // 100)
 
 
 def find_all(mem, pat):
